@@ -53,10 +53,10 @@ Qed.
 (* what a [true] of the per-epoch check on the implementation's output means *)
 Theorem impl_ok_b_sound i vals ups comms :
   impl_ok_b i (EOk vals ups comms) = true ->
-  election_ok (i_params i) (sort_by e_addr (i_ents i)) (i_epoch i) (i_nodes i) (val_extra i) vals /\
+  election_ok (i_params i) (sort_by e_addr (post_ents i)) (i_epoch i) (post_nodes i) (val_extra i) vals /\
   Permutation (apply_updates (i_current i) ups) (powers_of vals) /\
-  comms_ok (i_fv261 i) (i_params i) (sort_by e_addr (i_ents i)) (map ent_of vals) (i_epoch i)
-    (committee_nodes i (sort_by n_id (i_nodes i))) (vrf_blocked i) (i_rts i) (committee_srcs i) comms.
+  comms_ok (i_fv261 i) (i_params i) (sort_by e_addr (post_ents i)) (map ent_of vals) (i_epoch i)
+    (committee_nodes i (sort_by n_id (post_nodes i))) (vrf_blocked i) (i_rts i) (committee_srcs i) comms.
 Proof.
   unfold impl_ok_b. intros H. apply andb_true_iff in H. destruct H as [H H3].
   apply andb_true_iff in H. destruct H as [H1 H2].
